@@ -133,6 +133,7 @@ module Pos =
   | Coq_xI p0 -> S (size_nat p0)
   | Coq_xO p0 -> S (size_nat p0)
   | Coq_xH -> S O
+
   (** val size : positive -> positive **)
 
   let rec size = function
